@@ -20,6 +20,9 @@ def Inv (env : Env) (st : Store) : Prop := BlobsOk env st ∧ NameInv env st ∧
 def LitterOk (env : Env) : Op → Prop
   | .litter (.colon r) c => isHex64 r = true → env.hash c = r
   | .litterBlob k c => env.hash c = k
+  /- …and on what a registry serves as the manifest of a pull: `sha256:` digests, sizes that are the sizes of the
+     named contents (`PullOk`: `PullModel` never compares them), a decodable model layer (`PullShowOk`) -/
+  | .pull n (some m) sv => PullOk env m ∧ PullShowOk env (.pull n (some m) sv)
   | _ => True
 
 /-- the request mentions digests only in the `sha256:<hex>` spelling (and is not the injected respelling) -/
@@ -77,6 +80,10 @@ theorem step_good {env : Env} (hinj : HashInj env) {st : Store} (hc : Guard env 
   | copy s d => exact copyAt_good hb hc hn _ _
   | delete n => exact deleteAt_good hb hc _
   | prune => exact pruneStartup_good hinj hb hc hleg
+  | pull t reg served =>
+    refine pullAt_good hb hc _ reg served (fun m e => ?_)
+    subst e
+    exact hlit.1
   | litter j c =>
     simp only [step, targets]
     refine ⟨hb, fun h n m hm l hl => h n m hm l hl, hc, ?_, fun _ _ => rfl, fun _ _ _ _ _ _ _ h => h⟩
@@ -232,6 +239,7 @@ theorem canonOp_of_B {op : Op} (h : canonOpB op = true) : CanonOp op := by
 def litterOkB (env : Env) : Op → Bool
   | .litter (.colon r) c => !isHex64 r || env.hash c == r
   | .litterBlob k c => env.hash c == k
+  | .pull _ (some _) _ => false   -- quantifies over all contents: not decidable, never claimed by the checker
   | _ => true
 
 theorem litterOk_of_B {env : Env} {op : Op} (h : litterOkB env op = true) : LitterOk env op := by
@@ -245,6 +253,10 @@ theorem litterOk_of_B {env : Env} {op : Op} (h : litterOkB env op = true) : Litt
       exact h
     | plain s => trivial
   | litterBlob k c => simpa [LitterOk, litterOkB] using h
+  | pull n reg sv =>
+    cases reg with
+    | none => trivial
+    | some m => simp [litterOkB] at h
   | _ => trivial
 
 def runGuardB (env : Env) : Store → List (Op × Choice) → Bool
@@ -453,6 +465,7 @@ theorem no_case_twins_partial (env : Env) (hv : env.v.fixResolve = false) (st : 
     | dashify n => exact h.mono (fun a ha => readable_of_rewrite env st ch n a (Or.inr ha))
     | litter j c => exact sub0 rfl
     | litterBlob k c => exact sub0 rfl
+    | pull n reg sv => exact sub n ch.ord1 hcov.1 (by simp [targets, hres])
   exact ⟨key, key.noTwins⟩
 
 /-- histories of API operations whose iteration orders are orders of the actual manifest map -/
@@ -520,6 +533,7 @@ theorem no_new_case_twins_fixed (env : Env) (hv : env.v.fixResolve = true) (st :
   | create r => exact sub r.name (by simp [targets, hres])
   | copy s d => exact sub d (by simp [targets, hres])
   | delete n => exact sub n (by simp [targets, hres])
+  | pull n reg sv => exact sub n (by simp [targets, hres])
   | plant s d => exact absurd hapi (by simp [ApiOp])
   | corrupt n => exact sub0 (fun x hx => readable_of_rewrite env st ch n x (Or.inl hx))
   | dashify n => exact sub0 (fun x hx => readable_of_rewrite env st ch n x (Or.inr hx))
@@ -601,8 +615,15 @@ theorem listed_can_be_shown {env : Env} (hinj : HashInj env) (st : Store) (hi : 
 
 /-- `ShowInv` is preserved by every operation once N1 is repaired (pinned: `N1_create_continues_witness`) -/
 theorem op_preserves_ShowInv {env : Env} (hv : env.v.fixReturn = true) (hinj : HashInj env) (st : Store)
-    (hi : Inv env st) (hs : ShowInv env st) (op : Op) (ch : Choice) : ShowInv env (step env st op ch).1 :=
-  step_showInv hv hinj hi.1 hs op ch
+    (hi : Inv env st) (hs : ShowInv env st) (op : Op) (ch : Choice) (hlit : LitterOk env op) :
+    ShowInv env (step env st op ch).1 :=
+  step_showInv hv hinj hi.1 hs op ch (by
+    cases op with
+    | pull n reg sv =>
+      cases reg with
+      | none => trivial
+      | some m => exact hlit.2
+    | _ => trivial)
 
 theorem empty_ShowInv (env : Env) : ShowInv env Store.empty := by
   intro n m h; simp [Store.empty, Store.man, aget] at h
@@ -622,7 +643,7 @@ theorem history_listed_complete_and_shown_fixed {env : Env} (hv : env.v.fixAlias
   | cons p rest ih =>
     exact ih (fun q hq => hlit q (by simp [hq])) _
       (op_preserves_NameInv_fixed hv hk hinj st hi p.1 p.2 (hlit p (by simp)))
-      (op_preserves_ShowInv hr hinj st hi hs p.1 p.2)
+      (op_preserves_ShowInv hr hinj st hi hs p.1 p.2 (hlit p (by simp)))
 
 /-! ## witnesses of the defects the model shares with the code (Lean-checked) -/
 
@@ -802,6 +823,18 @@ theorem prune_classes_witness :
     (fixBlobs stW).junk.map (fun p => p.1.str) =
       ["sha256-ab-partial", "junk.txt", "sha256-123456789", "sha256-ab-partial-0"] ∧
     incompleteB (pruneStartup wEnv stW).1 = false := by decide +kernel
+
+/-- pull: the verify loop refuses a corrupted CONFIG (and leaves the already verified weights as an orphan);
+    the honest registry's manifest is installed and complete; a blob that is already in the store is a cache
+    hit and is not fetched at all (the corrupted bytes are never seen) -/
+theorem pull_witness :
+    let m : Manifest := ⟨⟨.config, ⟨.colon, "C"⟩, 1⟩, [⟨.model, ⟨.colon, "G"⟩, 1⟩]⟩
+    let bad := step wEnv Store.empty (.pull (nm "library" "p") (some m) [("G", gG), ("C", [88])]) ch0
+    let good := step wEnv bad.1 (.pull (nm "library" "p") (some m) [("G", [88]), ("C", [67])]) ch0
+    bad.2 = ["e500"] ∧ (bad.1.readableAt (nm "library" "p")).isNone = true ∧ (bad.1.blob "G").isSome = true ∧
+    bad.1.blob "C" = none ∧
+    good.2 = ["s"] ∧ incompleteB good.1 = false ∧ (listed good.1).contains (nm "library" "p") = true ∧
+    showAt wEnv good.1 (nm "library" "p") = "h200" := by decide +kernel
 
 /-! ## non-vacuity -/
 
